@@ -23,6 +23,7 @@ from harness.lib import wire_resps as R
 from harness.lib.wire_common import vr
 
 COMPONENTS = ["wire"]
+CONSTS = ["wire", "wiregen"]  # "wiregen": the model terms regenerated from the AST (harness/consts/wiregen.py), proved equal to the hand-written model
 TRUSTED = [
     "the Kafka protocol grammar as written in Afkak/Wire/Spec.lean (from the protocol guide) and, independently, in harness/sim/refcodec.py; their encodings are compared byte for byte on every run",
     "Afkak.Wire.Crc.crc32 (used to RUN grammar and model) is compared with zlib.crc32 on every run (C04 run); the theorems hold for any checksum function",
@@ -135,7 +136,11 @@ def simple_scenarios(rng, n):
     out = []
     for i in range(n):
         k = kinds[i % len(kinds)] if i < 4 * len(kinds) else rng.choice(kinds + ["metadata", "produce2", "offset_fetch"])
-        out.append({"op": "resp", "kind": k, "value": vr(R.SIMPLE[k](rng))})
+        sc = {"op": "resp", "kind": k, "value": vr(R.SIMPLE[k](rng))}
+        ver = R.pick_version(rng, k)
+        if ver is not None:
+            sc["ver"] = ver  # api_version handed to decode_produce_response (any integer; default: the kind's own)
+        out.append(sc)
     return out
 
 
@@ -148,7 +153,11 @@ def fetch_scenarios(rng, n, big):
     for _ in range(n):
         kind = rng.choice(["fetch0", "fetch2"])
         tps = R.topics_of(rng, lambda r: [R.i32(r), R.err(r), R.i64(r), tree_to_json(R.gen_tree(r, r.choice([0, 0, 1, 2]), big))], max_topics=3, max_parts=3)
-        out.append({"op": "fetch", "kind": kind, "corr": R.i32(rng), "throttle": R.i32(rng), "topics": [[t.hex(), ps] for t, ps in tps]})
+        sc = {"op": "fetch", "kind": kind, "corr": R.i32(rng), "throttle": R.i32(rng), "topics": [[t.hex(), ps] for t, ps in tps]}
+        ver = R.pick_version(rng, kind)
+        if ver is not None:
+            sc["ver"] = ver  # api_version handed to decode_fetch_response
+        out.append(sc)
     return out
 
 
@@ -439,6 +448,10 @@ def plan_one(sc, kind, val, data, known_gunzips, decs, rng, res):
             line = R.real_decode_set_line(data)
         else:
             api, extra, fn = decs[kind]
+            ver = sc.get("ver") if kind in R.VERSIONED else None
+            if ver is not None:
+                extra, fn = R.versioned_decoder(kind, ver)  # the api_version argument: any integer
+                res.count("api_version:%s:%s" % (R.VERSIONED[kind], ver if -2 < ver < 4 else "<=-2" if ver < 0 else ">=4"))
             line = R.real_decode_line(kind, data, fn)
     # externals.  A payload the harness compressed itself has ONE right answer (RFC 1952: the data of
     # all its members): the model and the monitor get that answer - what the protocol says the wrapper
@@ -470,10 +483,12 @@ def plan_one(sc, kind, val, data, known_gunzips, decs, rng, res):
     if kind == "msgset":
         p.items.append(("corr", "dec-set %s" % vr(data), [line]))
     else:
-        api, extra, _fn = decs[kind]
         p.items.append(("corr", "dec %s %s%s" % (api, vr(data), "".join(" " + vr(x) for x in extra)), [line]))
     if val is not None:
-        p.items.append(("mon", "mon-c05 %s %s | %s" % (kind, val, line), ["c05-%s-not-identity" % kind]))
+        if R.version_judged(kind, sc.get("ver")):
+            p.items.append(("mon", "mon-c05 %s %s | %s" % (kind, val, line), ["c05-%s-not-identity" % kind]))
+        else:
+            res.count("api_version:not-judged")  # version 1 / negative / the other layout: model = code only
         ref = R.ref_encode(kind, W.parse_v(val)) if kind not in ("correlation_id",) else None
         sc["_ref_same"] = None if ref is None else (ref == data)
         if ref is not None and ref != data:
@@ -504,6 +519,8 @@ def run_scenarios(ctx, res, scs, rng, mutants=0.5, chunk=300):
             if data is not None and sc["op"] != "mutant" and rng.random() < mutants:
                 for _ in range(2):
                     m = {"op": "mutant", "kind": kind, "data": mutate(rng, data).hex()}
+                    if sc.get("ver") is not None:
+                        m["ver"] = sc["ver"]
                     pm = plan_one(m, None, None, None, gunz, decs, rng, res)
                     plans.append(pm)
                     res.evaluations += 1
